@@ -400,6 +400,7 @@ class DataOracle(object):
         self.closing = {"c": False, "s": False}   # close() with closeSocket off drops application data while it waits
         self.sock_closed = {"c": False, "s": False}
         self.close_sent = {"c": False, "s": False}
+        self.control_seen = False
 
     @staticmethod
     def peer(w):
@@ -412,6 +413,8 @@ class DataOracle(object):
         conn = cn.conn(w)
         cls = lab.exc_class(val) if kind == "error" else None
         was_closed = w in self.closed_by
+        if name in ("ku", "hb", "pha") or (name == "inject" and op[2] != "alert"):
+            self.control_seen = True
         if name == "write":
             if kind == "ok":
                 self.written[w] += op[2]
@@ -451,7 +454,11 @@ class DataOracle(object):
                     # our own close_notify reply cannot be sent
                     items = self.stream[w]
                     k = next((n for n, it in enumerate(items) if it[0] == "alert" and it[2] == 0), None)
-                    if not was_closed and k is not None and all(it[0] == "data" for it in items[:k]):
+                    # no claim when any control traffic (KeyUpdate, heartbeat, PHA, faulty-peer message) was ever issued -
+                    # the reader may then have to send something else than the close_notify reply - nor when the reader
+                    # is itself inside close()
+                    if not was_closed and k is not None and all(it[0] == "data" for it in items[:k]) \
+                            and not self.control_seen and not self.closing[w] and not self.close_sent[w]:
                         self.problems.append(("c17:close-notify-reply-failure-not-forgiven",
                                               "op %d: the peer's close_notify was received but read raised %s (transport of %s: %s)"
                                               % (idx, cls, w, self.dead[w])))
